@@ -69,6 +69,24 @@ ALT_SCALARS = {"reg_eps": (1, 4), "norm_eps": (1, 100), "cagrad_c": (1, 4), "mgd
                "mgda_max_iters": 3}
 
 
+# kinds with alt = 2 / 3 (EpsScalars of AggContract.tla): NON-DEFAULT norm_eps # reg_eps, both orders, powers of two
+EPS_SCALARS = {2: {"norm_eps_exp": -27, "reg_eps_exp": -10, "cagrad_c": (1, 4)},
+               3: {"norm_eps_exp": -7, "reg_eps_exp": -13, "cagrad_c": (1, 4)}}
+
+
+def check_eps_table(epsk: dict | None) -> list[str]:
+    """Model and binding must agree on the (norm_eps, reg_eps) pairs of the alt = 2 / 3 kinds, and the two
+    thresholds of a pair must differ (both orders present)."""
+    got = {int(k): {q: (list(v) if isinstance(v, (list, tuple)) else v) for q, v in rec.items()}
+           for k, rec in (epsk or {}).items()}
+    want = {k: {q: (list(v) if isinstance(v, tuple) else v) for q, v in rec.items()} for k, rec in EPS_SCALARS.items()}
+    bad = [] if got == want else [f"(norm_eps, reg_eps) pairs: model {epsk} != binding {want}"]
+    orders = {(r["norm_eps_exp"] < r["reg_eps_exp"]) for r in EPS_SCALARS.values() if r["norm_eps_exp"] != r["reg_eps_exp"]}
+    if orders != {True, False}:
+        bad.append("the non-default (norm_eps, reg_eps) pairs do not come in both orders")
+    return bad
+
+
 def param_entry(agg: str, i: int, alt: int = 0) -> tuple[int, int]:
     """Entry i (1-based) of the constant parameter vector: ParamEntry of AggContract.tla (the tables
     exported by TLC are compared with this function by ``check_param_table``)."""
@@ -131,6 +149,16 @@ def make_agg(kind: dict):
     dt = DT.get(kind["pdt"], torch.float64)
     pref = param_tensor(agg, a, dt, alt) if a > 0 and agg in PARAM_AGGS else None
     q = {k: (v[0] / v[1] if isinstance(v, tuple) else v) for k, v in ALT_SCALARS.items()}
+    if alt in EPS_SCALARS:                          # keyword arguments: what the documentation names
+        es = EPS_SCALARS[alt]
+        ne, re_ = math.ldexp(1.0, es["norm_eps_exp"]), math.ldexp(1.0, es["reg_eps_exp"])
+        if agg == "UPGrad":
+            return UPGrad(pref_vector=pref, norm_eps=ne, reg_eps=re_)
+        if agg == "DualProj":
+            return DualProj(pref_vector=pref, norm_eps=ne, reg_eps=re_)
+        if agg == "CAGrad":
+            return CAGrad(c=es["cagrad_c"][0] / es["cagrad_c"][1], norm_eps=ne)
+        raise KeyError(f"{agg} has no (norm_eps, reg_eps)")
     if agg == "Mean":
         return Mean()
     if agg == "Sum":
@@ -784,8 +812,12 @@ def random_kind(rng: random.Random) -> dict:
         a = rng.randint(0, 2)
     elif agg == "Krum":
         a, b = rng.randint(0, 2), rng.randint(1, 4)
-    if agg in ALT_AGGS and (a > 0 or agg in ("UPGrad", "DualProj", "CAGrad", "MGDA")) and rng.random() < 0.3:
-        alt = 1                                     # every constructor parameter at its alternate value
+    if agg in ALT_AGGS and (a > 0 or agg in ("UPGrad", "DualProj", "CAGrad", "MGDA")):
+        r = rng.random()
+        if r < 0.3:
+            alt = 1                                 # every constructor parameter at its alternate value
+        elif r < 0.5 and a == 0 and agg in ("UPGrad", "DualProj", "CAGrad"):
+            alt = 2 if r < 0.4 else 3               # norm_eps # reg_eps (EPS_SCALARS), either order
     return {"name": f"{agg}({a},{b},{pdt},{alt})", "agg": agg, "a": a, "b": b, "pdt": pdt, "alt": alt}
 
 
